@@ -23,6 +23,7 @@ PROPERTY = 'C02'
 
 CENTRE_CONFIGS = [
     ('CFGrid1D', {}), ('CFGrid1D', {'as_coords': False}), ('CFGrid2D', {}), ('CFGrid2D', {'as_coords': False}),
+    ('CFGrid2D', {'lon_transposed': True, 'bounds': True}),
     ('ShocSimple', {'bounds': True}), ('ShocStandard', {}),
     ('UGridMesh', {'face_coords': True, 'maxn': 4, 'fill': 'int_fill'}),
     ('UGridMesh', {'face_coords': True, 'maxn': 4, 'fill': 'int_fill', 'coords_as': 'coords'}),
@@ -95,7 +96,7 @@ def scn_centres(c, ci):
     if conv_name == 'CFGrid1D':
         ex, ey = V['lon'].arr.fn((idx[1],)), V['lat'].arr.fn((idx[0],))
     elif conv_name == 'CFGrid2D':
-        ex, ey = V['lon'].arr.fn(idx), V['lat'].arr.fn(idx)
+        ex, ey = V['lon'].arr.fn(idx if not kw.get('lon_transposed') else (idx[1], idx[0])), V['lat'].arr.fn(idx)
     elif conv_name == 'ShocSimple':
         ex, ey = V['longitude'].arr.fn(idx), V['latitude'].arr.fn(idx)
     elif conv_name == 'ShocStandard':
